@@ -23,19 +23,31 @@ constexpr auto rotate(ForwardIt first, ForwardIt nFirst, ForwardIt last) -> Forw
         return first;
     }
 
-    auto read     = nFirst;
-    auto write    = first;
-    auto nextRead = first;
+    // The remainder [write, last) is rotated by the same procedure. A loop instead of a recursive
+    // call: the depth is linear in the distance (rotating by one position from the back recursed
+    // once per element) and only becomes a jump where the optimiser turns the tail call into one.
+    auto result    = last;
+    auto firstPass = true;
+    while (first != nFirst and nFirst != last) {
+        auto read     = nFirst;
+        auto write    = first;
+        auto nextRead = first;
 
-    while (read != last) {
-        if (write == nextRead) {
-            nextRead = read;
+        while (read != last) {
+            if (write == nextRead) {
+                nextRead = read;
+            }
+            etl::iter_swap(write++, read++);
         }
-        etl::iter_swap(write++, read++);
-    }
 
-    etl::rotate(write, nextRead, last);
-    return write;
+        if (firstPass) {
+            result    = write;
+            firstPass = false;
+        }
+        first  = write;
+        nFirst = nextRead;
+    }
+    return result;
 }
 
 } // namespace etl
